@@ -84,8 +84,8 @@ impl Prop for C07 {
     }
     fn budget(&self, tier: Tier) -> Budget {
         match tier {
-            Tier::Quick => Budget { cases: 24_000, max_tape: 768 },
-            Tier::Thorough => Budget { cases: 500_000, max_tape: 1280 },
+            Tier::Quick => Budget { cases: 400_000, max_tape: 768 },
+            Tier::Thorough => Budget { cases: 6_000_000, max_tape: 1280 },
         }
     }
     fn run_tape(&self, tape: &[u8], _tier: Tier, rec: &mut Recorder) -> Result<(), Failure> {
